@@ -437,6 +437,11 @@ def path_queries(path, solver="z3", timeout_s=60, prefix="", group_prefix="", tw
         tinfo = dict(extra_info or {})
         if twin_group is not None:
             tinfo["twin_group"] = twin_group
+        if getattr(path, "uncertain", False):
+            # a feasibility answer was undecided on this path: it was kept (its obligations carry the full
+            # hypotheses); if it is in fact infeasible its twin is unsat, which is tolerated for such paths
+            tinfo.setdefault("twin_group", group_prefix or prefix)
+            tinfo["twin_lenient_unknown"] = True
         hyp = path.hyp()
         if getattr(path, "witness", None):
             # non-vacuity witness found during exploration: the twin re-checks the hypotheses at these input values
